@@ -295,7 +295,7 @@ def _super_impl(ctx: CallContext) -> Value:
                 # something weird with this function; give up
                 ctx.show_error("failed to find %first_arg", ErrorCode.bad_super_call)
                 return AnyValue(AnySource.error)
-            else:
+            try:
                 if isinstance(first_arg, SubclassValue) and isinstance(
                     first_arg.typ, TypedValue
                 ):
@@ -306,6 +306,10 @@ def _super_impl(ctx: CallContext) -> Value:
                     return TypedValue(super(current_class, first_arg.typ))
                 else:
                     return AnyValue(AnySource.inference)
+            except TypeError:
+                # the first argument is not an instance or subclass of the current class
+                ctx.show_error("Bad arguments to super", ErrorCode.bad_super_call)
+                return AnyValue(AnySource.error)
         return AnyValue(AnySource.inference)
 
     if isinstance(typ, KnownValue):
